@@ -73,6 +73,15 @@ def objects(tier):
             return s
 
         add(n + "#split", tag, split_built)
+        # the same number of redundant vertices at other places
+        add(n + "#collinear-vertex-b", tag, lambda vs=vs: poly(list(vs[:2]) + [(F(vs[1][0] + vs[2][0], 2), F(vs[1][1] + vs[2][1], 2))] + list(vs[2:])))
+
+        def split_built_b(vs=vs):
+            s = poly(rot(vs, 1))
+            s.jordans[0].split([0, 2], [F(2, 3), F(1, 4)])
+            return s
+
+        add(n + "#split-b", tag, split_built_b)
         add(n + "#copy", tag, lambda vs=vs: copy(poly(vs)))
         add(n + "#deepcopy", tag, lambda vs=vs: deepcopy(poly(rot(vs, 1))))
         add(n + "#~~", tag, lambda vs=vs: ~(~poly(vs)))
@@ -96,6 +105,15 @@ def objects(tier):
     add("hollow#ops", "C:hollow", lambda: poly(P["big"]) - poly(P["inner"]) - poly(P["notch"]))
     add("hollow#ops2", "C:hollow", lambda: (poly(rot(P["big"], 2)) - poly(P["notch"])) - poly(variant(P["inner"], "fint")))
     add("hollow#copy", "C:hollow", lambda: copy(hollow((0, 1, 2))))
+
+    def hollow_split(where):
+        h = hollow((0, 1, 2))
+        h.subshapes[where[0]].jordans[0].split([where[1]], [F(1, 2)])
+        return h
+
+    add("hollow#split-hole", "C:hollow", lambda: hollow_split((1, 0)))
+    add("hollow#split-hole-b", "C:hollow", lambda: hollow_split((1, 2)))
+    add("hollow#split-outer", "C:hollow", lambda: hollow_split((0, 1)))
     add("ring-inner", "C:ring-inner", lambda: lib.ConnectedShape([poly(P["big"]), ~poly(P["inner"])]))
     add("ring-inner#ops", "C:ring-inner", lambda: poly(P["big"]) - poly(rot(P["inner"], 1)))
     add("ring-notch", "C:ring-notch", lambda: poly(P["big"]) - poly(P["notch"]))
@@ -134,6 +152,7 @@ def objects(tier):
     add("c8", "Q:c8", lambda: circle(ndivangle=8))
     add("c8#rot", "Q:c8", lambda: rotated_segments(circle(ndivangle=8), 3))
     add("c8#split", "Q:c8", lambda: split_half(circle(ndivangle=8), (0, 3)))
+    add("c8#split-b", "Q:c8", lambda: split_half(circle(ndivangle=8), (1, 5)))
     add("c8#copy", "Q:c8", lambda: copy(circle(ndivangle=8)))
     add("c8#&big", "Q:c8", lambda: circle(ndivangle=8) & poly(P["big"]))
     add("c8@cw", "Q:c8@cw", lambda: ~circle(ndivangle=8))
@@ -142,9 +161,11 @@ def objects(tier):
     add("lens", "Q:lens", lambda: al.build_leaf("Q.lens"))
     add("lens#rot", "Q:lens", lambda: rotated_segments(al.build_leaf("Q.lens"), 1))
     add("lens#split", "Q:lens", lambda: split_half(al.build_leaf("Q.lens"), (1,)))
+    add("lens#split-b", "Q:lens", lambda: split_half(al.build_leaf("Q.lens"), (0,)))
     add("rsq", "Q:rsq", lambda: al.build_leaf("Q.rsq"))
     add("rsq#rot", "Q:rsq", lambda: rotated_segments(al.build_leaf("Q.rsq"), 3))
     add("rsq#split", "Q:rsq", lambda: split_half(al.build_leaf("Q.rsq"), (0, 1)))
+    add("rsq#split-b", "Q:rsq", lambda: split_half(al.build_leaf("Q.rsq"), (2, 5)))
     add("blob", "Q:blob", lambda: al.build_leaf("Q.blob"))
     add("blob#rot", "Q:blob", lambda: rotated_segments(al.build_leaf("Q.blob"), 2))
     add("blob#split", "Q:blob", lambda: split_half(al.build_leaf("Q.blob"), (0,)))
